@@ -131,7 +131,8 @@ variable {α D : Type} [Add α] [Sub α] [Mul α] [Div α] [Neg α] [LT α] [LE 
 /-- **A stop request visible at a loop-head check ends the solve at that check**: the main loop
     returns through the exit block of that very head — no direction call, no line search, no
     further problem evaluation except those of the exit block (progress callback, and `ψ(x̂)`/`ŷ`
-    once in eager mode): at most 2 more ticks. -/
+    once in eager mode unless the head itself evaluated `ŷ`): at most 2 more ticks, and at most 4 for
+    the head and its exit block together (`head_exit_ticks`). -/
 theorem stop_at_head_exits (P : Problem α) (dir : Direction D α) (pr : Params α)
     (stop : Nat → Bool) (oot : Bool) (x0 y Sig errz0 : Vec α) (fuel : Nat) (s : St α D)
     (h : stop (headStep P pr stop oot s).1.tick = true) :
@@ -210,7 +211,11 @@ theorem mainLoop_ticks_after_stop (P : Problem α) (dir : Direction D α) (pr : 
   | succ f ih =>
     have hf := headStep_fields P pr stop oot s
     by_cases hst : stop (headStep P pr stop oot s).1.tick = true
-    · have := (stop_at_head_exits P dir pr stop oot x0 y Sig errz0 f s hst).2.2.1
+    · -- head and exit block together make at most 4 calls (`ŷ(x̂)` is evaluated by one of them only)
+      have he := (stop_at_head_exits P dir pr stop oot x0 y Sig errz0 f s hst).2.1
+      have := head_exit_ticks P pr stop oot s (headStep P pr stop oot s).2.1
+        (headStep P pr stop oot s).2.2 x0 y Sig errz0
+      rw [he]
       omega
     · have hst' : stop (headStep P pr stop oot s).1.tick = false := by simpa using hst
       have hlt := lt_of_not_stop hm h0 hst'
@@ -326,7 +331,8 @@ theorem init_interrupted_single_callback (P : Problem α) (dir : Direction D α)
     unfold run; rw [hs]
   refine ⟨hx.1, by rw [hr]; exact hx.2.1, by rw [hr, hx.2.2.2]; exact hk.1, ?_, ?_⟩
   · rw [hr, hx.2.1, exitBlock_callbacks, hf.2.2.1, hk.2.2]; rfl
-  · rw [hr]; have := hx.2.2.1; omega
+  · rw [hr, hx.2.1]
+    exact head_exit_ticks P pr stop oot s _ _ x0 y Sig errz0
 
 /-! ### Interrupted or natural status -/
 
